@@ -403,6 +403,11 @@ def _index_bounds(idx):
     return [idx]
 
 
+def _nobb(s):
+    import re as _re
+    return _re.sub(r"@bb\d+", "", s)
+
+
 def r13_slice_indices(ctx, reach):
     """every slice/array/Vec index the authors wrote on input-reachable code has bounds that are tied to the container it indexes:
     a constant under a dominating length test of that container, or a value computed from that very container (the count a read
@@ -553,7 +558,7 @@ def r13_slice_indices(ctx, reach):
                     for cd in conds.all():
                         tt = cd.term
                         if cd.kind == "bool" and isinstance(tt, tuple) and tt and tt[0] == "binop" and tt[1] in ("Ge", "Gt") and is_call_term(tt[2], "::len") and tt[2][3] and \
-                                var_name(tt[2][3][0]) == var_name(cont_) and var_name(cont_) and const_value(tt[3]) is not None and cfg.edges_dominate(cd.edges_for(True), bi):
+                                ((var_name(tt[2][3][0]) == var_name(cont_) and var_name(cont_)) or _nobb(fmt(tt[2][3][0])) == _nobb(fmt(cont_))) and const_value(tt[3]) is not None and cfg.edges_dominate(cd.edges_for(True), bi):
                             k_ = const_value(tt[3]) + (1 if tt[1] == "Gt" else 0)
                             lo = k_ if lo is None else max(lo, k_)
                 ok = lo is not None and lo > idx_c
@@ -703,6 +708,8 @@ def r16_cursor_loops_advance(ctx, reach):
             loop = cfg.cycle_blocks(c_.block)
             if not any(s_ not in loop for s_ in body.succ(c_.block)):
                 continue        # not an exit test of this loop
+            if any((c2.norm or "").endswith(("Iterator>::next", "Iterator::next")) and c2.bb in loop for c2 in body.calls(True)):
+                continue        # driven by an iterator, which ends the loop by itself; an extra exit test is not its cursor
             # the cursor: a user variable in the test that is assigned inside the loop
             cands = []
             sides = [x for x in ((t[2], t[3]) if t[0] == "binop" else t[3])]
